@@ -94,6 +94,7 @@ class Acc:
         self.capped = 0
         self.outcomes = set()    # vacuity guard: distinct observed outcomes
         self.violations = []     # dicts: key, what, case
+        self._perkey = {}
         self.nviol = 0
         self.samples = []
         self.extra = {}
@@ -106,8 +107,11 @@ class Acc:
         self.extra[k] = self.extra.get(k, 0) + n
 
     def viol(self, key, what, case):
+        # at most 2 records per key, so that frequent (e.g. known) keys can never crowd out a new one
         self.nviol += 1
-        if len(self.violations) < self.MAX_VIOL:
+        c = self._perkey.get(key, 0)
+        if c < 2 and len(self._perkey) < self.MAX_VIOL * 10:
+            self._perkey[key] = c + 1
             self.violations.append({"key": key, "what": what, "case": case})
 
     def sample(self, s, cap=6):
@@ -126,7 +130,9 @@ class Acc:
         if len(self.outcomes) < self.MAX_OUT:
             self.outcomes |= o.outcomes
         for v in o.violations:
-            if len(self.violations) < self.MAX_VIOL * 4:
+            c = self._perkey.get(v["key"], 0)
+            if c < 2 and len(self._perkey) < self.MAX_VIOL * 10:
+                self._perkey[v["key"]] = c + 1
                 self.violations.append(v)
         self.nviol += o.nviol
         for s in o.samples:
